@@ -681,8 +681,19 @@ def _system(case):
 
     fails += set_config(W)
     fw = F(W, 'angstrom')
-    s = am.System(atoms=am.Atoms(**working_props(phys, W)), box=am.Box(vects=vects * fw, origin=origin * fw),
-                  pbc=pbc, symbols=symbols, masses=masses)
+    if case.get('hist'):
+        # the same system reached through a history on ONE live System: built in a cubic box, scaled coordinates read
+        # (whatever the Box caches is now populated), then the box replaced in place by the target cell with scale=True
+        wp = working_props(phys, W)
+        _, atype_, rel_ = ATOMSETS[aset]
+        cub = 4.05 * fw * np.identity(3)
+        wp['pos'] = np.asarray(rel_, float) @ cub
+        s = am.System(atoms=am.Atoms(**wp), box=am.Box(vects=cub), pbc=pbc, symbols=symbols, masses=masses)
+        s.atoms_prop(key='pos', scale=True)
+        s.box_set(vects=vects * fw, origin=origin * fw, scale=True)
+    else:
+        s = am.System(atoms=am.Atoms(**working_props(phys, W)), box=am.Box(vects=vects * fw, origin=origin * fw),
+                      pbc=pbc, symbols=symbols, masses=masses)
     bu = BOX_UNITS[case['box_unit']]
     kw = {} if bu == '<default>' else {'box_unit': bu}
     effbu = 'angstrom' if bu == '<default>' else bu
@@ -958,6 +969,10 @@ def gen():
                                     for rt in range(min(len(ROUTES), 9)):
                                         yield 'system', {'atoms': ai, 'symmass': 1, 'box': bi, 'pbc': 1, 'box_unit': bu, 'props': pi,
                                                          'route': rt, 'ustyle': us, 'posunit': pu, 'api': api, 'W': W, 'R': R}
+                                        if POSUNITS[pu] == 'scaled' and api == 0 and bu == 0:
+                                            # ... and reached through a history on one live System (box replaced in place)
+                                            yield 'system', {'atoms': ai, 'symmass': 1, 'box': bi, 'pbc': 1, 'box_unit': bu, 'props': pi,
+                                                             'route': rt, 'ustyle': us, 'posunit': pu, 'api': api, 'W': W, 'R': R, 'hist': 1}
 
 
 if __name__ == '__main__':
